@@ -61,7 +61,19 @@ func ParseCfg(s string) (Cfg, error) {
 	names := append([]string{}, ExtNames...)
 	sort.Slice(names, func(i, j int) bool { return len(names[i]) > len(names[j]) })
 	found := false
+	if strings.HasPrefix(s, "x:") {
+		end := strings.IndexByte(s, '+')
+		if end < 0 {
+			end = len(s)
+		}
+		c.Ext = s[:end]
+		s = strings.TrimPrefix(s[end:], "+")
+		found = true
+	}
 	for _, n := range names {
+		if found {
+			break
+		}
 		if s == n || strings.HasPrefix(s, n+"+") {
 			c.Ext = n
 			s = strings.TrimPrefix(strings.TrimPrefix(s, n), "+")
@@ -118,6 +130,35 @@ func (c Cfg) Extenders() []goldmark.Extender {
 	tbl := extension.NewTable(c.tableOpts()...)
 	gfm := []goldmark.Extender{extension.Linkify, tbl, extension.Strikethrough, extension.TaskList}
 	all := append(append([]goldmark.Extender{}, gfm...), extension.DefinitionList, extension.Footnote, extension.Typographer)
+	if strings.HasPrefix(c.Ext, "x:") {
+		var out []goldmark.Extender
+		for _, m := range strings.Split(strings.TrimPrefix(c.Ext, "x:"), ",") {
+			switch m {
+			case "":
+			case "linkify":
+				out = append(out, extension.Linkify)
+			case "table":
+				out = append(out, tbl)
+			case "strike":
+				out = append(out, extension.Strikethrough)
+			case "tasklist":
+				out = append(out, extension.TaskList)
+			case "deflist":
+				out = append(out, extension.DefinitionList)
+			case "footnote":
+				out = append(out, extension.Footnote)
+			case "typographer":
+				out = append(out, extension.Typographer)
+			case "gfm":
+				out = append(out, extension.GFM)
+			case "cjk":
+				out = append(out, extension.CJK)
+			default:
+				out = append(out, Cfg{Ext: m}.Extenders()...)
+			}
+		}
+		return out
+	}
 	switch c.Ext {
 	case "core":
 		return nil
@@ -200,6 +241,9 @@ func (c Cfg) GoExpr() string {
 		"all":        "extension.GFM, extension.DefinitionList, extension.Footnote, extension.Typographer",
 		"all+cjk":    "extension.GFM, extension.DefinitionList, extension.Footnote, extension.Typographer, extension.CJK",
 	}[c.Ext]
+	if strings.HasPrefix(c.Ext, "x:") {
+		ext = "/* extensions in this order: " + strings.TrimPrefix(c.Ext, "x:") + " */"
+	}
 	var po, ro []string
 	if c.AutoID {
 		po = append(po, "parser.WithAutoHeadingID()")
